@@ -329,3 +329,172 @@ def tour_stage(rep, work, name, module, constants, systems, opts="", keys="plain
         name, res.distinct, res.generated, res.wall, summ["tours"], ",".join(systems), summ["steps"],
         len(summ.get("mismatches") or []), summ.get("known")))
     return res, summ
+
+
+# ---------------------------------------------------------------------------
+# direction B: recorded walks validated by TLC (TraceWalk.tla)
+
+def load_findings():
+    try:
+        with open(os.path.join(VERIF, "known_findings.json")) as f:
+            return [x for x in json.load(f).get("findings", []) if x.get("status") == "open"]
+    except FileNotFoundError:
+        return []
+
+
+def classify(prop, system, op, msg):
+    for k in load_findings():
+        if k.get("property") and prop not in k["property"]:
+            continue
+        if not re.fullmatch(k.get("sys", ".*"), system):
+            continue
+        if not re.fullmatch(k.get("op", ".*"), op):
+            continue
+        if not re.search(k.get("msg", ""), msg):
+            continue
+        return k["id"]
+    return None
+
+
+def validate_trace(work, module, trace, timeout=1800, heap="4g", cfgname=None, deque=False):
+    """Run the trace specification on `trace`.  Returns (accepted, failing
+    event index (1-based) or None, TLCResult)."""
+    cfgfile = cfgname or (module + ".cfg")
+    if not os.path.exists(work.path(cfgfile)):
+        write_cfg(work.path(cfgfile), {}, postcondition="Accepted")
+    env_trace = os.path.abspath(trace)
+    os.environ["TRACE"] = env_trace
+    props = ["-Dtlc2.tool.queue.IStateQueue=StateDeque"] if deque else []
+    res = run_tlc(work, module + ".tla", cfgfile, workers=1, timeout=timeout, heap=heap, java_props=props)
+    text = "\n".join(res.log)
+    m = re.search(r'"REJECTED-AT",\s*(\d+),\s*(\d+)', text)
+    if m:
+        return False, int(m.group(1)), res
+    if "Model checking completed. No error has been found." in text and res.rc == 0:
+        return True, None, res
+    raise Infra("trace validation did not finish (rc=%s):\n%s" % (res.rc, "\n".join(res.log[-30:])))
+
+
+def split_walks(path):
+    """Group the events of a walk trace: list of (first_line_no, [lines])."""
+    walks, cur = [], None
+    with open(path) as f:
+        for i, line in enumerate(f, 1):
+            if line.startswith('{"t":"start"'):
+                cur = [i, [line]]
+                walks.append(cur)
+            elif cur is not None:
+                cur[1].append(line)
+    return walks
+
+
+def walk_stage(rep, work, name, module, constants, systems, kind, opts="", invariants=(), view="View",
+               emit="Emit", tlc_workers=1, every=1, timeout=1800, maxextra=1):
+    """TLC emits store states (tours with `fin`); the harness reaches each and
+    records paginated walks; TLC validates the recorded walks."""
+    tag = re.sub(r"\W", "_", name)
+    cfgfile = "%s.%s.cfg" % (module, tag)
+    write_cfg(work.path(cfgfile), constants, view=view, action_constraint=emit, invariants=invariants)
+    trace = work.path("walk.%s.ndjson" % tag)
+    out = work.path("walk.%s.json" % tag)
+    cmd = [HARNESS, "walk", "--kind", kind, "--systems", ",".join(systems), "--opts", opts, "--seed", str(rep.seed),
+           "--trace", trace, "--out", out, "--every", str(every), "--maxextra", str(maxextra)]
+    p = subprocess.Popen(cmd, stdin=subprocess.PIPE, stderr=subprocess.PIPE, bufsize=1 << 20)
+    errbuf = []
+    t = threading.Thread(target=lambda: errbuf.extend(p.stderr.readlines()), daemon=True)
+    t.start()
+    tours_path = work.path("tours.%s.txt" % tag)
+    with open(tours_path, "wb") as keep:
+        class Tee:
+            def write(self, b):
+                keep.write(b)
+                p.stdin.write(b)
+        res = run_tlc(work, module + ".tla", cfgfile, sink=Tee(), workers=tlc_workers, timeout=timeout)
+    p.stdin.close()
+    rc = p.wait()
+    t.join(timeout=5)
+    if rc != 0:
+        raise Infra("harness walk failed:\n" + b"".join(errbuf).decode()[-3000:])
+    if not res.ok:
+        raise Infra("TLC run %s failed (rc=%s):\n%s" % (name, res.rc, "\n".join(res.log[-40:])))
+    with open(out) as f:
+        summ = json.load(f)
+    rep.add_tlc(name + "/gen", res)
+    for m in summ.get("setup_mismatches") or []:
+        rep.violations.append(("", "%s: setup step %d mismatched: %s" % (m["system"], m["at"], m["msgs"][:2])))
+    # validate, peeling rejected walks off so that the rest is still checked
+    rejected = []
+    cur = trace
+    nwalks = summ["walks"]
+    vstates = vtrans = 0
+    for attempt in range(12):
+        if os.path.getsize(cur) == 0:
+            break
+        ok, at, vres = validate_trace(work, "TraceWalk", cur, timeout=timeout)
+        vstates += vres.distinct
+        vtrans += vres.generated
+        if ok:
+            break
+        walks = split_walks(cur)
+        badw = None
+        for first, lines in walks:
+            if first <= at < first + len(lines):
+                badw = (first, lines)
+        if badw is None:
+            badw = walks[-1]
+        rejected.append((badw[1], at - badw[0]))
+        nxt = work.path("walk.%s.%d.ndjson" % (tag, attempt))
+        with open(nxt, "w") as f:
+            for first, lines in walks:
+                if first != badw[0]:
+                    f.writelines(lines)
+        cur = nxt
+    else:
+        rep.extra.setdefault("notes", []).append("stage %s: more than 12 rejected walks, validation stopped" % name)
+    vr = TLCResult()
+    vr.distinct, vr.generated = vstates, vtrans
+    rep.add_tlc(name + "/validate", vr)
+    rep.traces += nwalks - len(rejected)
+    rep.stages.append({"stage": name, "kind": kind, "tours": summ["tours"], "walks": nwalks, "events": summ["events"],
+                       "per_system": summ.get("per_system"), "notes": summ.get("notes"), "rejected": len(rejected)})
+    if not rep.samples and os.path.exists(trace):
+        with open(trace) as f:
+            rep.samples.append([json.loads(next(f)) for _ in range(3) if True][:3])
+    for lines, off in rejected:
+        start = json.loads(lines[0])
+        pages = [json.loads(x) for x in lines[1:]]
+        desc = "%s walk (%s, max=%d, prefix=%s, delim=%s) on %s rejected at its event %d: %s" % (
+            start.get("kind"), start.get("style"), start.get("max"), bytes(start.get("prefix") or []).decode("utf-8", "replace"),
+            bytes(start.get("delim") or []).decode("utf-8", "replace"), start.get("sys"), off,
+            json.dumps([(len(pg.get("ents") or []), len(pg.get("prefixes") or []), pg.get("trunc"), pg.get("note", "")) for pg in pages if pg["t"] == "page"])[:300])
+        # confirm on a fresh execution of the same tour
+        confirmed = confirm_walk(work, kind, start, rep.seed, opts, tours_path, maxextra)
+        if not confirmed:
+            rep.extra.setdefault("unconfirmed", []).append(desc)
+            continue
+        fid = classify(rep.prop, start.get("sys", ""), "Walk:" + str(start.get("kind")), desc)
+        if fid:
+            rep.known[fid] = rep.known.get(fid, 0) + 1
+            continue
+        os.makedirs(os.path.join(VERIF, "replays"), exist_ok=True)
+        import hashlib
+        rp = os.path.join(VERIF, "replays", "%s-walk-%s.ndjson" % (rep.prop, hashlib.sha1("".join(lines).encode()).hexdigest()[:16]))
+        with open(rp, "w") as f:
+            f.writelines(lines)
+        rep.violations.append((rp, desc))
+    log("stage %-28s tlc %d states; %d walks / %d events on %s; rejected %d; notes %s" % (
+        name, res.distinct, nwalks, summ["events"], ",".join(systems), len(rejected), summ.get("notes")))
+    return summ
+
+
+def confirm_walk(work, kind, start, seed, opts, tours_path, maxextra):
+    """Re-execute the tour the rejected walk belongs to and validate again."""
+    trace = work.path("confirm.ndjson")
+    cmd = [HARNESS, "walk", "--kind", kind, "--systems", start.get("sys", "mem"), "--opts", opts, "--seed", str(seed),
+           "--trace", trace, "--only", str(start.get("tour", 0)), "--maxextra", str(maxextra)]
+    with open(tours_path, "rb") as f:
+        p = subprocess.run(cmd, stdin=f, capture_output=True)
+    if p.returncode != 0:
+        return False
+    ok, at, _ = validate_trace(work, "TraceWalk", trace)
+    return not ok
